@@ -258,7 +258,7 @@ theorem C12_error_no_effect_pure (env : PEnv) (orc : EvalOracles) (expr : Expr) 
     (runOracle orcl (processMessage env orc expr md name st) 0 []).1 = ({ st with error := true }, md) ∧
     (∀ x ∈ (runOracle orcl (processMessage env orc expr md name st) 0 []).2,
       ((∃ nm, x.1 = .openRd d nm) ∨ (∃ fd, x.1 = .read fd) ∨ ∃ fd, x.1 = .close fd) ∧
-        x.1.mutating = false ∧ x.1 ≠ .fork) ∧
+        x.1.mutating = false ∧ x.1.isFork = false) ∧
     ∃ L, (runOracle orcl (processMessage env orc expr md name st) 0 []).2 =
         (runOracle orcl (messageParseP d md.path name content) 0 []).2 ++ L ∧ ∀ x ∈ L, ∃ fd, x.1 = .close fd := by
   obtain ⟨h1, h2, h3⟩ := Proofs.processMessage_noMatch_run_pure env orc expr md name st d content p n mf hd hf hp hn hmf hfree
